@@ -333,7 +333,7 @@ func (s *vfSM) checkWaiters(vs *[]*vfViol, owner string) {
 
 // ---- model updates for client calls (shared by direct calls and the mid-sweep program) ----
 
-func (s *vfSM) modelSet(op *vfOp, ok bool, now time.Time, vs *[]*vfViol) {
+func (s *vfSM) modelSet(op *vfOp, ok bool, observedUpd bool, now time.Time, vs *[]*vfViol) {
 	tok := op.Tok
 	ti := s.toks[tok]
 	ti.issued = s.calls
@@ -352,6 +352,18 @@ func (s *vfSM) modelSet(op *vfOp, ok bool, now time.Time, vs *[]*vfViol) {
 	}
 	ent, in := s.resident[op.Key]
 	upd := in && (!s.cfg.ShouldUpdate || vfShouldUpdate(tok, ent.tok))
+	refusedOverwrite := in && !upd
+	if observedUpd != upd {
+		// R1: "an overwrite of a resident key is visible to Get immediately" (and nothing else is stored at once).
+		// The model follows what the cache did, so that later assertions of other properties stay meaningful.
+		if upd {
+			s.add(vs, vfV("C06", "overwrite-not-applied-immediately", "Set(%d) on a resident key (value %d): the new value %d is not in the map when Set returns", op.Key, ent.tok, tok))
+		} else {
+			s.add(vs, vfV("C06", "unexpected-immediate-store", "Set(%d): value %d is in the map when Set returns although the reference map %s", op.Key, tok,
+				map[bool]string{true: "holds a value that ShouldUpdate protects", false: "does not hold the key"}[in]))
+		}
+		upd = observedUpd
+	}
 	kind := pNew
 	if upd {
 		kind = pUpd
@@ -363,7 +375,8 @@ func (s *vfSM) modelSet(op *vfOp, ok bool, now time.Time, vs *[]*vfViol) {
 		}
 	}
 	room := len(s.fifo) < s.fifoCap()
-	if want := room || upd; ok != want {
+	// (a write that ShouldUpdate refuses is neither a new-key Set nor an applied overwrite: no property states its return value)
+	if want := room || upd; ok != want && !refusedOverwrite {
 		s.add(vs, vfV("C06", "set-return", "Set(%d) returned %v; reference FIFO holds %d of %d, overwrite of resident key: %v", op.Key, ok, len(s.fifo), s.fifoCap(), upd))
 		if !upd {
 			s.add(vs, vfV("C17", "set-return", "new-key Set(%d) returned %v with the reference FIFO at %d of %d", op.Key, ok, len(s.fifo), s.fifoCap()))
@@ -503,12 +516,14 @@ func (s *vfSM) applyPend(p vfPend, evs []vfCB, est map[uint64]int64, vs *[]*vfVi
 			d.Victims = append(d.Victims, e.key)
 		}
 		if c > s.maxCost && !rejected {
-			s.add(vs, vfV("C03", "too-large-admitted", "value %d with cost %d > MaxCost %d was not rejected", p.tok, c, s.maxCost))
+			if v, ok := s.peek(p.key); (ok && v == p.tok) || s.policyKeys()[p.key] == c {
+				s.add(vs, vfV("C03", "too-large-admitted", "value %d with cost %d > MaxCost %d was admitted", p.tok, c, s.maxCost))
+			}
 		}
 		if est != nil {
 			dst, sig, msg := vfJudge(d)
 			if sig != "" {
-				s.add(vs, &vfViol{Owner: "C09", Sig: sig, Msg: msg})
+				s.add(vs, &vfViol{Owner: sig[:3], Sig: sig, Msg: msg})
 			}
 			s.st.decisions = append(s.st.decisions, dst)
 			if dst.evictions > 0 && !rejected {
@@ -670,7 +685,8 @@ func (s *vfSM) exec(op *vfOp) (vs []*vfViol) {
 		op.Res = fmt.Sprint(ok)
 		_, v := s.absorb()
 		s.add(&vs, v)
-		s.modelSet(op, ok, now, &vs)
+		pv, pok := s.peek(op.Key)
+		s.modelSet(op, ok, pok && pv == op.Tok, now, &vs)
 	case "del":
 		if len(s.fifo) >= s.fifoCap() {
 			// Del blocks until the applier frees a slot: issue it from its own goroutine
@@ -877,7 +893,7 @@ func (s *vfSM) doSweep(prog []vfOp, j int, vs *[]*vfViol) {
 	s.mu.Unlock()
 	if s.progRan {
 		for i := range s.progOps {
-			if po := &s.progOps[i]; po.Kind == "set" && po.Res == "true" {
+			if po := &s.progOps[i]; po.Kind == "set" && strings.HasPrefix(po.Res, "true") {
 				s.toks[po.Tok].state = tPending // accepted; the model replays the call at the marker below
 			}
 		}
@@ -894,7 +910,7 @@ func (s *vfSM) doSweep(prog []vfOp, j int, vs *[]*vfViol) {
 				po := &s.progOps[i]
 				switch po.Kind {
 				case "set":
-					s.modelSet(po, po.Res == "true", now, vs)
+					s.modelSet(po, strings.HasPrefix(po.Res, "true"), strings.HasSuffix(po.Res, "+upd"), now, vs)
 					s.st.midSweepRewrites++
 				case "del":
 					s.modelDel(po)
@@ -998,8 +1014,8 @@ func (s *vfSM) doClear(live bool, vs *[]*vfViol) {
 	for _, t := range liveBefore {
 		ti := s.toks[t]
 		if ti.exits != 1 {
+			// C04: "exactly once, no later than the return of the next Clear or Close"
 			s.add(vs, &vfViol{Owner: "C04", Sig: "C04/not-released-by-clear", Msg: fmt.Sprintf("value %d (key %d, state %d) was accepted before Clear and has %d OnExit calls after Clear returned", t, ti.key, ti.state, ti.exits)})
-			s.add(vs, &vfViol{Owner: "C15", Sig: "C15/not-released-by-clear", Msg: fmt.Sprintf("value %d (key %d) has %d OnExit calls after Clear returned", t, ti.key, ti.exits)})
 		}
 		ti.state = tGone
 	}
@@ -1074,7 +1090,11 @@ func (s *vfSM) finish() (vs []*vfViol) {
 	for _, t := range liveBefore {
 		if ti := s.toks[t]; ti.exits != 1 {
 			s.add(&vs, &vfViol{Owner: "C04", Sig: "C04/not-released-by-close", Msg: fmt.Sprintf("value %d (key %d) has %d OnExit calls after Close", t, ti.key, ti.exits)})
-			s.add(&vs, &vfViol{Owner: "C15", Sig: "C15/not-released-by-close", Msg: fmt.Sprintf("value %d (key %d) has %d OnExit calls after Close", t, ti.key, ti.exits)})
+			if ti.exits == 0 {
+				// C15: "every value still held or buffered has been released through the callbacks" (Close is issued with
+				// the applier halted, so these values are exactly the ones held or buffered when Close began)
+				s.add(&vs, &vfViol{Owner: "C15", Sig: "C15/not-released-by-close", Msg: fmt.Sprintf("value %d (key %d) was held or buffered when Close was called and never reached OnExit", t, ti.key)})
+			}
 		}
 	}
 	for t, ti := range s.toks {
